@@ -296,6 +296,9 @@ func (in *Interp) checkAssert(c *Term, label string) {
 	in.out.SymAssert++
 	r, m := in.sol.Check(in.st.BNot(c), true, in.st.Vars)
 	in.out.Queries++
+	if in.cfg.CrossCheck && len(in.out.Cross) < 2 && in.sol.KeepTrace {
+		in.out.Cross = append(in.out.Cross, CrossQuery{Label: label, Script: in.sol.Script.String(), Verdict: r})
+	}
 	switch r {
 	case Unsat:
 		return
